@@ -1,7 +1,7 @@
 (* Correspondence obligations for C07: the model's Equals answers, hash keys, Hash.Get results and
    Unique results on the values the implementation ran (harness/cmd/c07). *)
 From Coq Require Import ZArith NArith Bool List.
-From PcoreV Require Import Model.Base Model.Keys Model.KeysIndex Model.KeysCache.
+From PcoreV Require Import Model.Base Model.Keys Model.KeysIndex Model.KeysCache Model.KeysNames.
 Import ListNotations.
 
 (* the positions j with x.Equals(pool[j]) *)
@@ -106,3 +106,36 @@ Definition c07_cache_check (c : cache_case) : bool :=
       && option_eqb str_eqb (cto_key x) kx && option_eqb str_eqb (cto_key y) ky
   end.
 Definition c07_cache_mismatches (cs : list cache_case) : list N := failing c07_cache_check cs.
+
+(* ------------------------------------------------------------------------------------------ *)
+(* the cached canonical form of a TypedName (Model/KeysNames.v).
+   A case: two construction expressions (new / from a map key / Child / Parent / RelativeTo, nested), the observed
+   result of each - the visible parts namespace, authority, name and the MapKey of the value, or nil / not relative /
+   a reported error / a runtime fault - and the observed Equals answers in both directions (None: an operand is no
+   name). *)
+Inductive nobs :=
+ | OName (ns auth name map_key : str)
+ | ONil | ONotRel | OErr | OFault.
+
+Definition nobs_eqb (r : nres) (o : nobs) : bool :=
+  match r, o with
+  | RName t, OName ns auth name k =>
+      str_eqb (tn_ns t) ns && str_eqb (tn_auth t) auth && str_eqb (tn_name t) name && str_eqb (tn_map_key t) k
+  | RNil, ONil | RNotRel, ONotRel | RErr, OErr | RFault, OFault => true
+  | _, _ => false
+  end.
+
+Definition name_case : Type := nexpr * nexpr * nobs * nobs * option bool * option bool.
+
+Definition c07_name_check (c : name_case) : bool :=
+  match c with
+  | (e1, e2, o1, o2, q12, q21) =>
+      let r1 := nx_eval e1 in
+      let r2 := nx_eval e2 in
+      nobs_eqb r1 o1 && nobs_eqb r2 o2 &&
+      match r1, r2 with
+      | RName a, RName b => option_eqb Bool.eqb (Some (tn_equals a b)) q12 && option_eqb Bool.eqb (Some (tn_equals b a)) q21
+      | _, _ => match q12, q21 with None, None => true | _, _ => false end
+      end
+  end.
+Definition c07_name_mismatches (cs : list name_case) : list N := failing c07_name_check cs.
